@@ -27,6 +27,37 @@ func genCrashHistory(t *rapid.T) txh.History {
 	return h
 }
 
+// genRivalHistory: the victim's commit meets a store that another transaction changed after the victim's operations:
+// an empty store whose root the rival created meanwhile (half of the cases), or a small tree; the rival adds keys
+// nobody else uses, so the states before and after the victim both contain them.
+func genRivalHistory(t *rapid.T) txh.History {
+	h := txh.History{HashMod: rapid.SampledFrom([]int{1, 2, 5}).Draw(t, "hashMod"), UUIDSeed: rapid.Uint64().Draw(t, "uuidSeed")}
+	h.Stores = []txh.StoreOpts{txh.GenStoreOpts(t, 0, []int{0, 0, 1, 3})}
+	h.Stores[0].Slot = rapid.SampledFrom([]int{2, 4, 4, 8}).Draw(t, "slotR")
+	h.Stores[0].Unique = true
+	tag := 0
+	adds := func(n, base, span int, who string) []txh.Op {
+		var ops []txh.Op
+		used := map[int]bool{}
+		for i := 0; i < n; i++ {
+			k := base + rapid.IntRange(0, span-1).Draw(t, who+"key")
+			if used[k] {
+				continue
+			}
+			used[k] = true
+			tag++
+			ops = append(ops, txh.Op{Kind: "add", K: k, Tag: fmt.Sprintf("%s%d", who, tag), Size: rapid.SampledFrom([]int{0, 10}).Draw(t, who+"size")})
+		}
+		return ops
+	}
+	if rapid.Bool().Draw(t, "seeded") {
+		h.Txns = append(h.Txns, txh.TxnProg{Mode: sop.ForWriting, End: "commit", Ops: adds(rapid.IntRange(1, 6).Draw(t, "nSeed"), 100, 20, "s")})
+	}
+	h.Txns = append(h.Txns, txh.TxnProg{Mode: sop.ForWriting, End: "commit", Ops: adds(rapid.IntRange(1, 5).Draw(t, "nVictim"), 0, 40, "v")})
+	h.Rival = &txh.TxnProg{Mode: sop.ForWriting, End: "commit", Ops: adds(rapid.IntRange(1, 4).Draw(t, "nRival"), 1000, 40, "r")}
+	return h
+}
+
 type crashOutcome struct {
 	site       string
 	state      string // pre | post
@@ -197,7 +228,12 @@ func TestC08_CrashDuringCommit(t *testing.T) {
 		"standalone mode (in-memory L2): the restart process has empty caches and no locks")
 	quick := stats.Tier() != "thorough"
 	rapid.Check(t, func(t *rapid.T) {
-		h := genCrashHistory(t)
+		var h txh.History
+		if rapid.IntRange(0, 4).Draw(t, "withRival") == 0 {
+			h = genRivalHistory(t)
+		} else {
+			h = genCrashHistory(t)
+		}
 		// dry run in a child to learn the commit's call list
 		dir, _ := os.MkdirTemp("", "crashdry")
 		dr, err := txh.RunJob(txh.Job{Kind: "victim", Dir: dir, HashMod: h.HashMod, History: &h, Victim: len(h.Txns) - 1, CrashK: -1})
@@ -289,6 +325,9 @@ func TestC08_CrashDuringCommit(t *testing.T) {
 				if out.countOff {
 					rec.Exclude("Count() keeps the crashed transaction's delta (known finding)")
 					lbl = append(lbl, "countOffKnown")
+				}
+				if h.Rival != nil {
+					lbl = append(lbl, "rivalCommittedBeforeTheVictimsCommit")
 				}
 				rec.Case(fmt.Sprintf("%s k=%d %s", h.Render(), k, pos), k >= firstDurable, lbl...)
 			}
